@@ -1,8 +1,9 @@
 // vh-movebalance binds specs/MoveBalance to the real process/transaction.txProcessor (C23).
 //
 // Real: txProcessor (transaction.NewTxProcessor), AccountsDB over a patricia-merkle trie and an in-memory persister,
-// economicsData (+ GenericEpochNotifier), fee accumulator (postprocess.NewFeeAccumulator), argument parser, marshalizers.
-// Stubs: smart-contract processor (IsPayable = true), transaction type handler (always MoveBalance, MoveBalance),
+// economicsData (+ GenericEpochNotifier), fee accumulator (postprocess.NewFeeAccumulator), argument parser, marshalizers,
+// smart-contract processor + blockchain hook (IsPayable reads real code metadata; ProcessIfError on the not-payable path).
+// Stubs: VM container (never invoked), transaction type handler (always MoveBalance, MoveBalance),
 // intermediate-transaction forwarders (receipts / bad transactions are swallowed), one-shard coordinator.
 // Flags, fixed per behaviour and stated in the evidence: penalized-too-much-gas (economics and tx processor use the
 // same enable epoch) and gas-price-modifier on/off as the configuration says; relayed transactions v1/v2 disabled;
